@@ -26,7 +26,10 @@ pub fn prop() -> Prop {
 }
 
 #[derive(Clone, Debug, PartialEq)]
-enum Op { Add(u16, Vec<u16>), Remove(u16), SetKbd(Option<u16>), SetDisp(Option<u16>), Mmap(u16, u8), Munmap(u16), Read(u16), Write(u16, u16) }
+enum Op { /// tag 0 = the library's NullDevice (owns its ports, answers nothing)
+    Add(u16, Vec<u16>), Remove(u16), SetKbd(Option<u16>), SetDisp(Option<u16>), Mmap(u16, u8), Munmap(u16), Read(u16), Write(u16, u16),
+    /// a read without I/O effects (MemAccessCtx::omnipotent): still answered by the register or device at the port
+    Peek(u16) }
 
 /// The model: devices by id (tag of the recorder or None for null), port owner table, internal-register map.
 struct Model { devices: Vec<Option<u16>>, owner: BTreeMap<u16, u16>, ireg: BTreeMap<u16, u8>, pc: u16, saved_sp: u16, mcr: bool }
@@ -49,10 +52,9 @@ fn apply(sys: &mut Sys, m: &mut Model, op: &Op) -> Result<(), (String, String)> 
     let _ = drain(sys);
     match op {
         Op::Add(tag, ports) => {
-            let r = sys.recs.entry(*tag).or_insert_with(|| Recorder::new(*tag)).clone();
-            let got = sys.sim.device_handler.add_device(r, ports).ok();
+            let got = if *tag == 0 { sys.sim.device_handler.add_device(NullDevice, ports).ok() } else { let r = sys.recs.entry(*tag).or_insert_with(|| Recorder::new(*tag)).clone(); sys.sim.device_handler.add_device(r, ports).ok() };
             let ok = ports.iter().all(|p| *p >= 0xFE00 && !m.owned(*p));
-            let want = if ok { let id = m.devices.len() as u16; m.devices.push(Some(*tag)); for p in ports { m.owner.insert(*p, id); } Some(id) } else { None };
+            let want = if ok { let id = m.devices.len() as u16; m.devices.push(if *tag == 0 { None } else { Some(*tag) }); for p in ports { m.owner.insert(*p, id); } Some(id) } else { None };
             if got != want { return Err((format!("add_device:{}", if want.is_some() { "refused-but-should-succeed" } else if got.is_some() { "succeeded-but-should-be-refused" } else { "wrong-id" }), format!("add_device(ports {ports:04X?}) = {got:?}, model {want:?}"))); }
         }
         Op::Remove(id) => {
@@ -78,6 +80,15 @@ fn apply(sys: &mut Sys, m: &mut Model, op: &Op) -> Result<(), (String, String)> 
             if log != want_log { return Err((if want_log.is_empty() { "read-reached-a-device-it-should-not".into() } else { "read-missed-its-device".into() }, format!("read(x{p:04X}): device log {log:?}, model {want_log:?}"))); }
             if sys.sim.mem[*p].get() != want { return Err(("read-mirror".into(), format!("mem[x{p:04X}] = x{:04X} after the read, model x{want:04X}", sys.sim.mem[*p].get()))); }
         }
+        Op::Peek(p) => {
+            let before = sys.sim.mem[*p].get();
+            let got = sys.sim.read_mem(*p, lc3_ensemble::sim::MemAccessCtx::omnipotent()).map(|w| w.get()).ok();
+            let log = drain(sys);
+            let (want, want_log): (u16, Vec<(u16, char, u16, u16)>) = if *p < 0xFE00 { (before, vec![]) } else if let Some(r) = m.ireg.get(p) { (match *r { REG_PC => m.pc, REG_SSP => m.saved_sp, 8 => (m.mcr as u16) << 15, _ => sys.sim.psr().get() }, vec![]) }
+                else { let o = m.owner.get(p).copied().unwrap_or(0); match m.devices.get(o as usize).copied().flatten() { Some(tag) if o != 0 => (0x1200 | tag, vec![(tag, 'r', *p, 0)]), _ => (before, vec![]) } };
+            if got != Some(want) { return Err(("peek-value".into(), format!("effect-free read(x{p:04X}) = {got:04X?}, model x{want:04X}"))); }
+            if log != want_log { return Err((if want_log.is_empty() { "peek-reached-a-device-it-should-not".into() } else { "peek-missed-its-device-or-was-effectful".into() }, format!("effect-free read(x{p:04X}): device log {log:?}, model {want_log:?}"))); }
+        }
         Op::Write(p, v) => {
             let before = sys.sim.mem[*p].get();
             let _ = sys.sim.write_mem(*p, Word::new_init(*v), priv_ctx());
@@ -96,7 +107,7 @@ fn new_sys() -> Sys { Sys { sim: Simulator::new(SimFlags { machine_init: Machine
 
 fn alphabet() -> Vec<Op> {
     let mut v = vec![];
-    for (tag, ports) in [(1u16, vec![]), (1, vec![0xFE10u16]), (2, vec![0xFE10, 0xFE11]), (2, vec![0xFE11]), (3, vec![0xFE06]), (3, vec![0xFE10, 0x3000]), (1, vec![0xFFFC]), (3, vec![0xFFF0]), (2, vec![0xFFFF])] { v.push(Op::Add(tag, ports)); }
+    for (tag, ports) in [(1u16, vec![]), (1, vec![0xFE10u16]), (2, vec![0xFE10, 0xFE11]), (2, vec![0xFE11]), (3, vec![0xFE06]), (3, vec![0xFE10, 0x3000]), (1, vec![0xFFFC]), (3, vec![0xFFF0]), (2, vec![0xFFFF]), (0, vec![0xFE10]), (0, vec![0xFE12])] { v.push(Op::Add(tag, ports)); }
     for id in 0..6 { v.push(Op::Remove(id)); }
     v.push(Op::SetKbd(Some(4))); v.push(Op::SetKbd(None)); v.push(Op::SetDisp(Some(5)));
     for p in [0xFE10u16, 0xFE00, 0xFFF0, 0x3000] { v.push(Op::Mmap(p, REG_SSP)); }
@@ -115,7 +126,7 @@ fn run_history(ctx: &mut Ctx, ops: &[Op], probe: bool) -> bool {
     }
     if probe {
         for p in PROBE_PORTS {
-            for op in [Op::Read(p), Op::Write(p, 0x5A00 | (p & 0xFF)), Op::Read(p)] {
+            for op in [Op::Read(p), Op::Peek(p), Op::Write(p, 0x5A00 | (p & 0xFF)), Op::Read(p), Op::Peek(p)] {
                 if p == 0xFFFC && matches!(op, Op::Write(..)) { continue; } // do not rewrite the PSR through its default port
                 match crate::monitor::guard(|| apply(&mut sys, &mut m, &op)) { Ok(Ok(())) => {}, Ok(Err((sig, d))) => { ctx.violation(&format!("mmio:{sig}"), format!("probe {op:?} after the history: {d}"), case(ops.len())); return false; } Err(pi) => { ctx.violation(&format!("panic:{}", pi.sig()), pi.msg, case(ops.len())); return false; } }
             }
@@ -150,12 +161,12 @@ fn run(ctx: &mut Ctx) {
         let mut next_id = 3u16;
         for _ in 0..len {
             let op = match rng.below(12) {
-                0..=2 => { let np = rng.usize(4); next_id += 1; Op::Add(10 + next_id, (0..np).map(|_| port(rng)).collect()) }
+                0..=2 => { let np = rng.usize(4); next_id += 1; Op::Add(if rng.chance(1, 5) { 0 } else { 10 + next_id }, (0..np).map(|_| port(rng)).collect()) }
                 3 => Op::Remove(rng.below(next_id as u64 + 2) as u16),
                 4 => if rng.bool() { Op::SetKbd(if rng.bool() { Some(4) } else { None }) } else { Op::SetDisp(if rng.bool() { Some(5) } else { None }) },
                 5 => Op::Mmap(port(rng), rng.below(2) as u8),
                 6 => Op::Munmap(port(rng)),
-                7..=9 => Op::Read(port(rng)),
+                7..=9 => if rng.chance(1, 3) { Op::Peek(port(rng)) } else { Op::Read(port(rng)) },
                 _ => { let p = port(rng); Op::Write(if p == 0xFFFC { 0xFFFA } else { p }, rng.u16()) }
             };
             ops.push(op);
